@@ -261,8 +261,10 @@ def _std_dumps(m):
 
 def _safe(s):
     """Root-level time / timedelta carry values with known leaf-level findings (KF01, KF02: C01's subject)."""
-    from vlib.shapes import TimeDeltaS, TimeS
+    from vlib.shapes import PatternS, TimeDeltaS, TimeS
 
+    if s.name == "Pattern":
+        return PatternS(True)
     if s.name == "time":
         return TimeS(True)
     if s.name == "timedelta":
